@@ -133,6 +133,10 @@ def rCore (c : SaCore) : List String :=
 
 def rSa (s : Sa) : List String := rCore s.core ++ rOpt rCore s.succ
 
+/-- a successor that is already a table entry is an alias of that entry in the implementation: it is rendered once, as the entry -/
+def rSaIn (sas : List Sa) (s : Sa) : List String :=
+  rCore s.core ++ rOpt rCore (match s.succ with | some n => if registered sas n then none else some n | none => none)
+
 def rNl : NlOp → List String
   | .newSa d p s => ["N", hexOut d, toString p, hexOut s]
   | .delSa d p s => ["D", hexOut d, toString p, hexOut s]
@@ -148,7 +152,7 @@ def cmd (c : String) (args : List String) : Option String :=
         pure (now, thr, sas, ev, tape) : P _).run args
       if left ≠ [] then none else
       let (t, o) := loopIter tapeHandlers ((tape, false) : Tape) { sas := sas, threshold := thr } now ev
-      pure (join ([rB o.escaped, toString o.ran] ++ rList rSa o.ctl.sas ++
+      pure (join ([rB o.escaped, toString o.ran] ++ rList (rSaIn o.ctl.sas) o.ctl.sas ++
         rList (fun (x : Bytes × Bytes × Msg) => [hexOut x.1, hexOut x.2.1] ++ rMsg x.2.2) o.sent ++ rList rNl o.nl ++
         [toString t.1.length, rB t.2] ++ rOpt (fun l => rList (fun (s : Sa) => [hexOut s.core.mySpi, toString s.core.st]) l) o.status))
   | _ => none
